@@ -11,6 +11,8 @@ and rows of `force` that belong to padding atoms must compare equal to 0.0."""
 import contextlib
 import math
 
+import os
+
 import numpy as np
 
 from vlib import gen
@@ -40,7 +42,7 @@ ASSUMPTIONS = [
 ]
 REQUIRED_MONITORS = ["fd_dirs_compared", "evaluator_pairs_compared", "padding_rows_checked"]
 CASE_TIMEOUT = 600.0
-BUDGET_S = {"quick": 200, "thorough": 1700}
+BUDGET_S = {"quick": float(os.environ.get("VERIF_BUDGET_QUICK", 200)), "thorough": float(os.environ.get("VERIF_BUDGET_THOROUGH", 1700))}
 
 HS = (4e-3, 2e-3, 1e-3)
 TOL_ABS = 5e-6
